@@ -155,6 +155,8 @@ theorem timeout_step1 (c : Cfg) (g : S) (hrun : g.running = true) (hp : g.phase 
   rw [if_neg (by simp [sendHijack, orFlag, hdr]), if_pos (by simp [sendHijack])]
   simp only []
   rw [if_neg (by simp [how]), if_pos (by simp [sendHijack, orFlag, hp])]
+  rw [rsReset_retries_of_not_held c _ (by
+    simpa [rsHeld, sendHijack, orFlag] using (cleanUp_facts c { g with notify := false }).2.1)]
   simp only [finishOf, reenter]
   simp [sendHijack, orFlag, hps, loopBudget, hijackState]
 
